@@ -1,3 +1,4 @@
+import NucsProofs.Engine.ShavingTerm
 import NucsProofs.Engine.Shaving
 import NucsProofs.Engine.DfsShaving
 /-!
